@@ -98,13 +98,13 @@ def cells_for(chk, tier):
             cells.append((s, ()))
         for s in rng.sample(srcs, 12):
             cells.append((s, rng.choice(OPTION_SETS[1:])))
-        gen = gensrc.sources_for("C01", chk, n=15)
+        gen = gensrc.sources_for("C01", chk, n=16)
     else:
         for s in srcs:
             cells.append((s, ()))
             for o in rng.sample(OPTION_SETS[1:], 4):
                 cells.append((s, o))
-        gen = gensrc.sources_for("C01", chk, n=60)
+        gen = gensrc.sources_for("C01", chk, n=64)
     for g in gen:
         cells.append((g, ()))
         fam = os.path.basename(os.path.dirname(g))
